@@ -240,8 +240,14 @@ def run_driver(cases, out, env_extra=None):
     env = dict(os.environ)
     if env_extra:
         env.update(env_extra)
+    # the model driver is total (fuel everywhere) and linear in practice; a part that takes this long is a defect of
+    # the machinery (2026-09-27: an eagerly evaluated branch in the input decoder), reported instead of waited for
+    limit = int(os.environ.get("VERIF_DRIVER_TIMEOUT", "1500"))
     with open(cases, "rb") as fi, open(out, "wb") as fo:
-        p = subprocess.run([driver_path()], stdin=fi, stdout=fo, stderr=subprocess.PIPE, env=env)
+        try:
+            p = subprocess.run([driver_path()], stdin=fi, stdout=fo, stderr=subprocess.PIPE, env=env, timeout=limit)
+        except subprocess.TimeoutExpired:
+            raise RuntimeError("model driver did not finish %s within %d s" % (cases, limit))
     if p.returncode != 0:
         raise RuntimeError("driver failed: " + p.stderr.decode(errors="replace")[-2000:])
 
